@@ -59,6 +59,11 @@ def run(tier, rep, ev):
     for k, name in enumerate(shapes):
         add(sizes=SHAPES[name], mode="thread" if k % 2 else "seq", sink="factory", callback="slow", repeat=2, seed=k)
         add(sizes=SHAPES[name], mode="seq" if k % 2 else "thread", sink="factory", callback="fast", repeat=3, seed=k)
+    # members larger than the decode chunk: several 'u' events per member must add up
+    for k, name in enumerate(shapes):
+        add(sizes=SHAPES[name], mode="thread" if k % 2 else "seq", sink="factory", callback="fast", limit=[300, 1000, 777][k % 3], seed=k)
+        add(sizes=SHAPES[name], mode="thread", sink="path", callback="fast", limit=500, seed=k,
+            targets=[f"f1/m{len(SHAPES[name][0])}-ü.bin"])
     # single folder archives
     for k in range(4 if tier == "quick" else 30):
         add(sizes=[[1, 2, 1][: 1 + k % 3]], mode="thread", sink="factory" if k % 2 else "path", callback="slow" if k % 2 else "fast", seed=k)
